@@ -84,6 +84,10 @@ def probe(acc, world, trace, meta):
         if order != wf.names():
             viol("status rows not all targets in creation order", dict(rows=order), cmd="status")
         frame(["status"])
+        ref_rows = CW.ref_plan(world)["status"]
+        if full != ref_rows:
+            viol("status rows differ from the reference plan (scheduler-visible state of each target's latest job, else files)",
+                 dict(shown=full, expected=ref_rows), cmd="status-ref")
         # (2) filters and formats
         rel = CW.cone_names(world, None)[2]
         for f in filter_alphabet(wf):
